@@ -78,7 +78,7 @@ def sensitivity(args):
     try:
         for p in patches:
             name = os.path.basename(os.path.dirname(p)) if p.endswith("patch.diff") else os.path.basename(p)[:-5]
-            prop = name.split("-")[0] if not p.endswith("patch.diff") else json.load(open(os.path.dirname(p) + "/meta.json"))["property"]
+            prop = name.split("-")[0]
             sh(["git", "-C", tree, "checkout", "--", "."])
             a = sh(["git", "-C", tree, "apply", p])
             if a.returncode != 0:
